@@ -103,6 +103,60 @@ def judge(op, impl, model, spec):
     return "ok" if impl == model else "corr"
 
 
+def item_value(h):
+    """(width, bits) of a single float item given as hex, else None."""
+    if len(h) == 6 and h.startswith("f9"):
+        return 16, int(h[2:], 16)
+    if len(h) == 10 and h.startswith("fa"):
+        return 32, int(h[2:], 16)
+    if len(h) == 18 and h.startswith("fb"):
+        return 64, int(h[2:], 16)
+    return None
+
+
+def judge_trait(op, impl, model, spec):
+    """`tenc f32|f64 x<bits>`: the Encode impls of the float types (what to_vec, derived types and containers use).
+    Whatever width the implementation chooses, the item must denote the identical value; a NaN keeps its width and bits."""
+    w = op.split(" ")
+    width = 32 if w[1] == "f32" else 64
+    bits = int(w[2][1:], 16)
+    iv = item_value(impl.split(" ")[0])
+    if iv is None:
+        return "violation"
+    iw_, ib = iv
+    if iw_ > width:
+        return "violation"
+    if iw_ == width:
+        good = ib == bits
+    elif (isnan32 if width == 32 else isnan64)(bits):
+        good = False
+    else:
+        src = f32_val(bits) if width == 32 else f64_val(bits)
+        if {16: isnan16, 32: isnan32}[iw_](ib):
+            good = False
+        else:
+            good = same_value(src, f16_val(ib) if iw_ == 16 else f32_val(ib))
+    if not good:
+        return "violation"
+    return "ok" if impl == model else "corr"
+
+
+def judge_retry(op, impl, model, spec):
+    """`seq <item> <accessor>…`: accessors narrower than the item, repeated, then the right one, on ONE decoder.
+    The property speaks about an accessor applied to an item: the first call, at the start of the item, is judged
+    by the oracle.  Where a rejected call leaves the decoder is not part of C12 (Decoder::f16 and the integer
+    accessors have consumed the initial byte by then, Decoder::f32 / f64 have not): the later calls are compared
+    with the model, which fixes the pinned behaviour."""
+    w = [x for x in op.split(" ") if not x.startswith("#")]
+    iv = item_value(w[1])
+    rs = impl.split(";")
+    if iv is None or len(rs) != len(w) - 2:
+        return "violation"
+    if {"f16": 16, "f32": 32, "f64": 64}[w[2]] < iv[0] and not rs[0].startswith("err"):
+        return "violation"
+    return "ok" if impl == model else "corr"
+
+
 def judge_blk(op, impl, model, spec):
     iw = impl.split(" ")
     if len(iw) != 4 or iw[0] != "blk" or iw[2] != "bad=0":
@@ -271,6 +325,32 @@ def streams(rng, tier):
         ops.append(f"dec f16 fa{b32:08x}"); ops.append(f"dec f16 fb{b64:016x}"); ops.append(f"dec f32 fb{b64:016x}")
     out.append(Stream("no-narrowing", "hcore", ops, judge=judge, nontrivial=nontrivial,
                       rule="dec f32 on fb items, dec f16 on fa/fb items: always a (type) error, also when the value would fit"))
+    # ---- the Encode impls of f32 / f64 (to_vec, containers, derived types go through these, not through Encoder::f64)
+    ops = []
+    for b in pats[::(7 if tier == "quick" else 1)]:
+        ops.append(f"tenc f32 x{b:08x}")
+    for b in f64_patterns(rng, tier):
+        ops.append(f"tenc f64 x{b:016x}")
+    out.append(Stream("trait-encode", "hcore", ops, judge=judge_trait, nontrivial=nontrivial,
+                      rule="tenc f32|f64: the Encode impls; the item written denotes the identical value (NaN: identical width and bits)"))
+    # ---- a rejected narrower accessor, tried again, then the right one: one decoder
+    ops = []
+    heads16 = [0x3c00, 0x0000, 0x7c00, 0x7e00, 0x0001]
+    b64s = [int("fa3f800000000000", 16), int("f93c000000000000", 16), int("f97e00f93c00f93c", 16), int("fa7fc00000fa7fc0", 16),
+            int("fbfbfbfbfbfbfbfb", 16), int("3ff0000000000000", 16), 0, int("fa00000000000000", 16)]
+    b64s += [(0xf9 << 56) | (h << 40) | rng.getrandbits(40) for h in heads16] + [(0xfa << 56) | rng.getrandbits(56) for _ in range(40)]
+    b64s += [rng.getrandbits(64) for _ in range(200 if tier == "quick" else 5000)]
+    for b in b64s:
+        for accs in ("f32 f32 f64", "f16 f16 f64", "f32 f16 f32 f64", "f16 f32 f32 f32", "f32 f32 f32 f32 f32"):
+            ops.append(f"seq fb{b:016x} {accs}")
+    b32s = [int("f93c0000", 16), int("f97e0000", 16), int("f9f9f9f9", 16), 0x3f800000, 0] + [(0xf9 << 24) | rng.getrandbits(24) for _ in range(60)]
+    b32s += [rng.getrandbits(32) for _ in range(200 if tier == "quick" else 5000)]
+    for b in b32s:
+        for accs in ("f16 f16 f32", "f16 f16 f64", "f16 f16 f16 f16"):
+            ops.append(f"seq fa{b:08x} {accs}")
+    out.append(Stream("rejected-then-retried", "hcore", ops, judge=judge_retry, nontrivial=lambda op, impl: "err type" in impl,
+                      rule="seq <float item> <narrower accessors> <right accessor> on one decoder: the first call is an error (oracle); "
+                           "what the later calls see (the position a rejected call leaves behind) is compared with the model"))
     # ---- blocks
     bl = blocks(rng, tier)
     st = Stream("blocks", "hcore", [a for a, _ in bl], model_ops=[b for _, b in bl], judge=judge_blk, nontrivial=nontrivial,
@@ -289,4 +369,8 @@ def replay_streams(rp):
         s = Stream("replay", "hcore", [op], model_ops=[rp.get("model_op") or op], judge=judge_blk)
         s.shrinkable = False
         return [s]
+    if op.startswith("tenc"):
+        return [Stream("replay", "hcore", [op], judge=judge_trait)]
+    if op.startswith("seq"):
+        return [Stream("replay", "hcore", [op], judge=judge_retry)]
     return [Stream("replay", "hcore", [op], judge=judge)]
